@@ -302,7 +302,7 @@ func hashString(s string) uint64 {
 
 func C09(e *core.Env) {
 	res := e.Res
-	res.Rule = "cases = histories of 1..6 (quick) / 1..25 (thorough) documents through ONE compiled profile, drawn from a pool (passing, failing, several results, no nodes, undecodable, rejected by JSON-LD, repeats, fail-then-pass), with compilations and text validations of OTHER profiles (re-declaring built-in prefixes, same names) interleaved; documents with lexical source maps with / without a source-information node; every report / error is compared byte-wise (fixed clock) with the report a FRESH PROCESS makes from the profile text and that document, and with a text validation made AFTER the histories; " +
+	res.Rule = "cases = histories of 1..6 (quick) / 1..25 (thorough) documents through ONE compiled profile, drawn from a pool (passing, failing, several results, no nodes, undecodable, rejected by JSON-LD, repeats, fail-then-pass), with compilations and text validations of OTHER profiles (re-declaring built-in prefixes, same names; in every fourth history 12 distinct other profiles at once) interleaved, under two report configurations (with / without creation time, same schema IRIs); documents with lexical source maps with / without a source-information node; every report / error is compared byte-wise (fixed clock) with the report a FRESH PROCESS makes from the profile text and that document, and with a text validation made AFTER the histories; " +
 		"non-trivial = the history contains two different documents and at least one failing call; distinct by (profile, history)"
 	rc := config.DefaultReportConfiguration()
 	coreProfile := `#%Validation Profile 1.0
@@ -323,6 +323,10 @@ validations:
 	otherProfiles := []string{
 		"#%Validation Profile 1.0\nprofile: Other\nprefixes:\n  core: http://other.org/core#\n  ex: http://other.org/ex#\nviolation:\n  - named\nvalidations:\n  named:\n    targetClass: core.Thing\n    message: other\n    propertyConstraints:\n      ex.name:\n        minCount: 1\n",
 		PoolProfileSpecial, evalErrProfile,
+	}
+	manyOthers := []string{}
+	for i := 0; i < 12; i++ {
+		manyOthers = append(manyOthers, fmt.Sprintf("#%%Validation Profile 1.0\nprofile: Other %d\nprefixes:\n  ex: http://example.org/ns#\nwarning:\n  - o%d\nvalidations:\n  o%d:\n    targetClass: ex.Thing\n    message: other %d\n    propertyConstraints:\n      ex.o%d:\n        minCount: 1\n", i, i, i, i, i))
 	}
 	profiles := []string{PoolProfileMin, PoolProfileLevels, coreProfile, evalErrProfile}
 	docs := []string{PoolDataGood, PoolDataBad, coreData, PoolDataEmpty, "[]", PoolDataGarbage, PoolDataTruncated, `{"@id": 5}`, `{"@id": "http://example.org/d#a", "@type": 1}`, PoolDataSpecial}
@@ -349,13 +353,14 @@ validations:
 	// everything that serves as the reference is computed before any other profile or document is seen: each reference is
 	// the report of a FRESH PROCESS for (profile text, document) (verifh oneshot), so nothing validated earlier can leak into it
 	self, _ := os.Executable()
-	freshProcess := func(p, d string, slot int) (string, bool) {
+	cfgs := []int{0, 4} // default configuration; the same IRIs without the creation time
+	freshProcess := func(p, d string, cfg int, slot int) (string, bool) {
 		pf, df := filepath.Join(e.Scratch, fmt.Sprintf("c09p%d.yaml", slot)), filepath.Join(e.Scratch, fmt.Sprintf("c09d%d.jsonld", slot))
 		os.WriteFile(pf, []byte(p), 0o644)
 		os.WriteFile(df, []byte(d), 0o644)
 		ctx, cancel := context.WithTimeout(context.Background(), 90*time.Second)
 		defer cancel()
-		out, err := exec.CommandContext(ctx, self, "oneshot", pf, df).Output()
+		out, err := exec.CommandContext(ctx, self, "oneshot", pf, df, fmt.Sprint(cfg)).Output()
 		var m map[string]string
 		if err != nil || json.Unmarshal(out, &m) != nil {
 			return "", false
@@ -365,8 +370,8 @@ validations:
 		}
 		return "value:" + m["report"], true
 	}
-	type refJob struct{ pi, di int }
-	refs := make([][]string, len(profiles))
+	type refJob struct{ pi, di, ci int }
+	refs := make([][][]string, len(profiles))
 	jobs := make(chan refJob)
 	var rwg sync.WaitGroup
 	for w := 0; w < 8; w++ {
@@ -374,16 +379,19 @@ validations:
 		go func(w int) {
 			defer rwg.Done()
 			for j := range jobs {
-				if r, ok := freshProcess(profiles[j.pi], docs[j.di], w); ok {
-					refs[j.pi][j.di] = r
+				if r, ok := freshProcess(profiles[j.pi], docs[j.di], cfgs[j.ci], w); ok {
+					refs[j.pi][j.di][j.ci] = r
 				}
 			}
 		}(w)
 	}
 	for pi := range profiles {
-		refs[pi] = make([]string, len(docs))
+		refs[pi] = make([][]string, len(docs))
 		for di := range docs {
-			jobs <- refJob{pi, di}
+			refs[pi][di] = make([]string, len(cfgs))
+			for ci := range cfgs {
+				jobs <- refJob{pi, di, ci}
+			}
 		}
 	}
 	close(jobs)
@@ -393,8 +401,13 @@ validations:
 	for pi, p := range profiles {
 		before := map[string]string{}
 		for di, d := range docs {
-			if refs[pi][di] != "" {
-				before[d] = refs[pi][di]
+			for ci := 1; ci < len(cfgs); ci++ {
+				if refs[pi][di][ci] != "" {
+					before[fmt.Sprintf("cfg%d|", ci)+d] = refs[pi][di][ci]
+				}
+			}
+			if refs[pi][di][0] != "" {
+				before[d] = refs[pi][di][0]
 				res.Count("reference=fresh-process")
 			} else {
 				before[d] = fresh(p, d)
@@ -427,6 +440,13 @@ validations:
 			for k, di := range hist {
 				d := docs[di]
 				distinct[di] = true
+				if k == 1 && h%4 == 0 {
+					// many other profiles are compiled while this compiled profile is held
+					for _, op := range manyOthers {
+						pkg.CompileProfile(op, false, nil)
+					}
+					log = append(log, fmt.Sprintf("compile-%d-other-profiles", len(manyOthers)))
+				}
 				if e.Rand.Intn(3) == 0 { // something else happens in the process in between
 					op := otherProfiles[e.Rand.Intn(len(otherProfiles))]
 					if e.Rand.Intn(2) == 0 {
@@ -437,18 +457,28 @@ validations:
 						log = append(log, "validate-other")
 					}
 				}
+				ci := 0
+				if e.Rand.Intn(3) == 0 {
+					ci = 1 + e.Rand.Intn(len(cfgs)-1)
+				}
+				useCfg := c06Configs[cfgs[ci]]
 				o := guarded(30*time.Second, func() (string, error) {
-					return pkg.ValidateCompiledWithConfiguration(compiled, d, false, nil, clockA, rc)
+					return pkg.ValidateCompiledWithConfiguration(compiled, d, false, nil, clockA, useCfg)
 				})
 				got := o.kind + ":" + o.text
-				log = append(log, fmt.Sprintf("doc%d->%s", di, o.kind))
+				log = append(log, fmt.Sprintf("doc%d/cfg%d->%s", di, cfgs[ci], o.kind))
 				if o.kind != "value" {
 					failing = true
 				}
-				if got != before[d] {
+				want, haveRef := before[d], true
+				if ci > 0 {
+					want, haveRef = before[fmt.Sprintf("cfg%d|", ci)+d]
+				}
+				if haveRef && got != want {
+					before[d+"|shown"] = want
 					res.Violate("impl-violates-property", fmt.Sprintf("call %d of a history through one compiled profile differs from a fresh validation of the same document", k),
 						map[string]any{"profile": p, "history_documents": histDocs(hist, docs), "history_log": log, "position": k, "document": d,
-							"compiled_result": core.Trunc(got, 1500), "fresh_result": core.Trunc(before[d], 1500)})
+							"configuration": fmt.Sprintf("%+v", useCfg), "compiled_result": core.Trunc(got, 1500), "fresh_result": core.Trunc(want, 1500)})
 					break
 				}
 			}
